@@ -433,6 +433,32 @@ theorem trace_limit (f : Frame) (outer : Stack) (limit : Int) (atv : Option Int)
   unfold Spec.applyLimit
   split <;> simp [List.length_take]
 
+/-- `Copy()` hands the configured limits on unchanged, however often it is applied -/
+theorem cloneN_limits (n : Nat) (l : Limits) : cloneN n l = l := by
+  induction n generalizing l with
+  | zero => rfl
+  | succ n ih => simp only [cloneN]; rw [ih]; cases l; rfl
+
+/-- `trace_limit` for copies: on a runtime obtained by any number of `Copy()`s from one configured with trace
+    limit `l.trace` (and any stack-depth limit), an error below `depth` nested calls has exactly
+    `min(limit, depth + 1)` frames for a limit ≥ 1 and all `depth + 1` frames for a limit ≤ 0 – the same as on the
+    original. -/
+theorem trace_limit_copy (n : Nat) (l : Limits) (depth : Nat) :
+    traceCount (cloneN n l) depth = Spec.traceCount l.trace depth ∧
+    Spec.traceCount l.trace depth = (if l.trace ≥ 1 then min l.trace.toNat (depth + 1) else depth + 1) := by
+  rw [cloneN_limits]
+  have hs : Spec.traceCount l.trace depth = (if l.trace ≥ 1 then min l.trace.toNat (depth + 1) else depth + 1) := by
+    unfold Spec.traceCount Spec.applyLimit
+    split <;> simp [List.length_take]
+  refine ⟨?_, hs⟩
+  rw [hs]
+  unfold traceCount nestStack
+  rw [List.replicate_succ]
+  have h := trace_limit { callee := "r", file := some 0, offset := 1 }
+    (List.replicate depth { callee := "r", file := some 0, offset := 1 }) l.trace (some 1)
+    (by intro g hg; rw [List.eq_of_mem_replicate hg]; decide)
+  simpa using h
+
 /-- in general a positive limit bounds the scopes *visited*, not the frames kept: scopes whose offset is
     negative are skipped but still count -/
 theorem trace_limit_visits (f : Frame) (outer : Stack) (n : Nat) (atv : Option Int) :
